@@ -422,10 +422,183 @@ func apiGen(leanDir string) string {
 	sort.Strings(untranslatedAcc)
 	fmt.Fprintf(&sb, "/-- accessors the translator could not render -/\ndef untranslatedAccessors : List String := [%s]\n\n", quoteAll(untranslatedAcc))
 
+	sb.WriteString(wfGen(funcs))
+
 	sort.Strings(untranslated)
 	sort.Strings(skipped)
 	fmt.Fprintf(&sb, "/-- setters the translator could not render -/\ndef untranslatedSetters : List String := [%s]\n\n", quoteAll(untranslated))
 	fmt.Fprintf(&sb, "/-- exported Set…/Add… methods that have no `SetOp` constructor in the model -/\ndef unmodelledSetters : List String := [%s]\n\n", quoteAll(skipped))
 	sb.WriteString("end Mq.Gen\n")
+	return sb.String()
+}
+
+// ---- WellFormed: `if <cond> { return newMalformed(x, "ref", "reason") }`, a `switch p.QoS()` over such ifs/returns,
+// a loop over the filters returning the first per-filter verdict, `return nil`
+
+type wfTr struct {
+	recvVar string
+	bad     string
+}
+
+func (t *wfTr) fail(n ast.Node) string {
+	if t.bad == "" {
+		t.bad = srcOf(n)
+	}
+	return "none"
+}
+
+func (t *wfTr) path(e ast.Expr) (string, bool) {
+	s := exprStr(e)
+	if strings.HasPrefix(s, t.recvVar+".") && strings.Count(s, ".") == 1 {
+		return "p." + s[len(t.recvVar)+1:], true
+	}
+	return "", false
+}
+
+func (t *wfTr) cond(e ast.Expr) string {
+	switch x := e.(type) {
+	case *ast.ParenExpr:
+		return "(" + t.cond(x.X) + ")"
+	case *ast.BinaryExpr:
+		switch x.Op {
+		case token.LAND:
+			return t.cond(x.X) + " ∧ " + t.cond(x.Y)
+		case token.LOR:
+			return t.cond(x.X) + " ∨ " + t.cond(x.Y)
+		case token.EQL:
+			if lit, ok := x.Y.(*ast.BasicLit); ok && lit.Kind == token.INT {
+				if ce, ok := x.X.(*ast.CallExpr); ok && exprStr(ce.Fun) == "len" && len(ce.Args) == 1 {
+					if p, ok := t.path(ce.Args[0]); ok {
+						return p + ".length = " + lit.Value
+					}
+				}
+				if p, ok := t.path(x.X); ok {
+					return p + " = " + lit.Value
+				}
+			}
+		}
+	case *ast.CallExpr:
+		if se, ok := x.Fun.(*ast.SelectorExpr); ok && se.Sel.Name == "Has" && len(x.Args) == 1 {
+			if p, ok := t.path(se.X); ok {
+				if v, ok := constVal(x.Args[0]); ok {
+					return fmt.Sprintf("has %s %d = true", p, v)
+				}
+			}
+		}
+	}
+	return "(" + t.fail(e) + " = none)"
+}
+
+// `return newMalformed(x, "ref", "reason")`
+func (t *wfTr) malformed(s ast.Stmt) (string, bool) {
+	rs, ok := s.(*ast.ReturnStmt)
+	if !ok || len(rs.Results) != 1 {
+		return "", false
+	}
+	ce, ok := rs.Results[0].(*ast.CallExpr)
+	if !ok || exprStr(ce.Fun) != "newMalformed" || len(ce.Args) != 3 {
+		return "", false
+	}
+	a, ok1 := ce.Args[1].(*ast.BasicLit)
+	b, ok2 := ce.Args[2].(*ast.BasicLit)
+	if !ok1 || !ok2 || a.Kind != token.STRING || b.Kind != token.STRING {
+		return "", false
+	}
+	return "some (" + a.Value + ", " + b.Value + ")", true
+}
+
+// the verdict of a statement list followed by `rest`
+func (t *wfTr) seq(list []ast.Stmt, rest string) string {
+	if len(list) == 0 {
+		return rest
+	}
+	s := list[0]
+	tail := t.seq(list[1:], rest)
+	if v, ok := t.malformed(s); ok {
+		return v
+	}
+	switch x := s.(type) {
+	case *ast.ReturnStmt:
+		if len(x.Results) == 1 && exprStr(x.Results[0]) == "nil" {
+			return "none"
+		}
+	case *ast.IfStmt:
+		if x.Else != nil {
+			break
+		}
+		if x.Init != nil {
+			// if v := p.subscriptionID; v != nil && *v > K { return … }
+			if srcOf(x.Init) == "v := "+t.recvVar+".subscriptionID" {
+				if be, ok := x.Cond.(*ast.BinaryExpr); ok && be.Op == token.LAND && srcOf(be.X) == "v != nil" {
+					if gt, ok := be.Y.(*ast.BinaryExpr); ok && gt.Op == token.GTR && srcOf(gt.X) == "*v" {
+						if k, ok := constVal(gt.Y); ok && len(x.Body.List) == 1 {
+							if v, ok := t.malformed(x.Body.List[0]); ok {
+								return fmt.Sprintf("(if p.subscriptionID.any (· > %d) then %s else %s)", k, v, tail)
+							}
+						}
+					}
+				}
+			}
+			break
+		}
+		return fmt.Sprintf("(if %s then %s else %s)", t.cond(x.Cond), t.seq(x.Body.List, tail), tail)
+	case *ast.SwitchStmt:
+		// switch p.QoS() { case 1, 2: …  case 3: … }
+		if x.Init == nil && x.Tag != nil && srcOf(x.Tag) == t.recvVar+".QoS()" {
+			out := tail
+			for i := len(x.Body.List) - 1; i >= 0; i-- {
+				cc := x.Body.List[i].(*ast.CaseClause)
+				if cc.List == nil {
+					return t.fail(s)
+				}
+				var alts []string
+				for _, e := range cc.List {
+					lit, ok := e.(*ast.BasicLit)
+					if !ok {
+						return t.fail(s)
+					}
+					alts = append(alts, "p.qos = "+lit.Value)
+				}
+				out = fmt.Sprintf("(if %s then %s else %s)", strings.Join(alts, " ∨ "), t.seq(cc.Body, tail), out)
+			}
+			return out
+		}
+	case *ast.RangeStmt:
+		// for _, f := range p.filters { if err := f.WellFormed(); err != nil { return err } }
+		if p, ok := t.path(x.X); ok && p == "p.filters" && len(x.Body.List) == 1 &&
+			srcOf(x.Body.List[0]) == "if err := "+exprStr(x.Value)+".WellFormed(); err != nil { return err }" {
+			return fmt.Sprintf("(match p.filters.findSome? Mq.Gen.TopicFilter.wellFormed with | some e => some e | none => %s)", tail)
+		}
+	}
+	return t.fail(s)
+}
+
+func wfGen(funcs map[string]*ast.FuncDecl) string {
+	var sb strings.Builder
+	var bad []string
+	for _, k := range []string{"TopicFilter.WellFormed", "Publish.WellFormed", "Subscribe.WellFormed"} {
+		fd := funcs[k]
+		recv := strings.Split(k, ".")[0]
+		body := "none"
+		if fd == nil || fd.Body == nil || len(fd.Recv.List[0].Names) != 1 {
+			bad = append(bad, k)
+		} else {
+			t := &wfTr{recvVar: fd.Recv.List[0].Names[0].Name}
+			body = t.seq(fd.Body.List, "none")
+			if t.bad != "" {
+				bad = append(bad, k+": "+t.bad)
+			}
+		}
+		fmt.Fprintf(&sb, "/-- `%s`: `(ref, reason)` of the `*Malformed`, `none` = nil -/\ndef %s.wellFormed (p : Mq.%s) : Option (String × String) :=\n  %s\n\n", k, recv, recv, body)
+	}
+	// every other packet type must be without a WellFormed method (the model gives them none)
+	var others []string
+	for k := range funcs {
+		if strings.HasSuffix(k, ".WellFormed") && k != "TopicFilter.WellFormed" && k != "Publish.WellFormed" && k != "Subscribe.WellFormed" {
+			others = append(others, k)
+		}
+	}
+	sort.Strings(others)
+	fmt.Fprintf(&sb, "def untranslatedWellFormed : List String := [%s]\n\n", quoteAll(append(bad, others...)))
 	return sb.String()
 }
